@@ -65,7 +65,8 @@ class C17(Machine):
                    "cross_links_set", "unsorted_group", "singleton_group",
                    "custom_distance_matrix", "generator_exact_count",
                    "long_lived_object_reused",
-                   "embedded_graph_carries_node_attributes")
+                   "embedded_graph_carries_node_attributes",
+                   "copy_rewired_before")
     real_vs_stub = {"real": ["Network generators (ErdosRenyi, BarabasiAlbert, "
                              "BarabasiAlbert_igraph, Configuration, "
                              "WattsStrogatz, Model wrappers), "
@@ -416,6 +417,9 @@ class C17(Machine):
         M = self._simple(out.adjacency, step, n)
         if M is None:
             return None
+        # the returned network is one object: its link count and embedded
+        # graph describe the adjacency it reports
+        self._consistent(out, M, step)
         if not np.array_equal(np.asarray(net.adjacency), A) or not \
                 np.array_equal(np.asarray(net.sp_A.todense()), A):
             self._bad("input-network-modified",
@@ -468,6 +472,13 @@ class C17(Machine):
             # network that every in-place randomisation must leave alone
             self._live_w = 1.0 + 0.25 * np.arange(A.shape[0])
             self._live.node_weights = self._live_w.copy()
+        if self._decorated and A.sum() >= 4:
+            # somebody took a copy and randomised *it*: nothing of that may
+            # reach the original
+            c = self._live.copy()
+            C.call(c.randomly_rewire, 3)
+            self._R.probe("copy_rewired_before")
+            self._consistent(self._live, A, -1)
         return self._live
 
     def _consistent(self, net, M, step):
